@@ -5,7 +5,7 @@ from ..expr import access_path, path_str, reaching_defs, norm_cond, origins, lea
 from ..linear import linear, relation, fmt, rel_str
 from ..symb import eval3
 from ..charclass import byteset, describe, CTYPE
-from .common import strip_casts, short, comparison, member_funcs, gated_by, after_result
+from .common import strip_casts, short, comparison, member_funcs, gated_by, after_result, same_class_inline, deparam, once_init, subtree_through_locals
 from ..symb import feasible_reach
 
 UNITS = []
@@ -123,8 +123,11 @@ def rule_r2_validated_is_stored(ck, prog, cls='trace::TraceState', rule='C14.R2'
 def rule_r2(ck, prog, cls='trace::TraceState', rule='C14.R2'):
     for name, gates in (('Set', ('IsValidKey', 'IsValidValue')), ('Delete', ('IsValidKey',))):
         f = prog.function(cls + '::' + name)
-        g = Graph(prog, f, inline=None, sync_lambdas=True)
-        news = [p for p in g.points if p.n is not None and p.n['k'] == 'new' and p.ctx is g.root_ctx]
+        _sci = same_class_inline(prog, f.cls)
+        # private helpers are inlined; the public GetDefault() (the empty state of the reject path) and the validators are not
+        g = Graph(prog, f, inline=lambda caller, call, callee, depth: _sci(caller, call, callee, depth) and callee.name != 'GetDefault' and not callee.name.startswith('IsValid'),
+                  sync_lambdas=True, max_depth=2)
+        news = [p for p in g.points if p.n is not None and p.n['k'] == 'new' and not p.ctx.lambda_of and p.f.cls == f.cls and p.f.kind != 'ctor']
         for gate in gates:
             ok = bool(news) and gated_by(g, news, _validator(gate))[0]
             ck.verdict(ok, rule, f, '%s:%s-gate' % (name, gate), news[0].n if news else None, 'construction behind %s' % gate if ok else
@@ -197,10 +200,21 @@ def rule_r3_copy(ck, prog, cls='trace::TraceState', rule='C14.R3', api='KeyValue
     for name in ('Set', 'Delete'):
         f = prog.function(cls + '::' + name)
         key = f.params[0]
-        lams = [x for x in prog.funcs.values() if x.d.get('lambda') and x.d.get('parent') == f.key]
+        # the copy callback: a lambda of the function itself, or of a private helper it hands the key to (the helper's parameter
+        # bound to the key is then the name the comparison uses)
+        cands = [(x, key['name']) for x in prog.funcs.values() if x.d.get('lambda') and x.d.get('parent') == f.key]
+        for n in f.nodes:
+            h = prog.funcs.get(n.get('ck')) if n['k'] == 'call' else None
+            if h is None or h.cls != f.cls or not h.blocks:
+                continue
+            for pi, a in enumerate(n.get('args', [])):
+                if a is not None and a >= 0 and pi < len(h.params) and once_init(f, a).get('id') == key['id'] or \
+                        (a is not None and a >= 0 and pi < len(h.params) and strip_casts(f, a)['k'] == 'construct' and len(strip_casts(f, a).get('args', [])) == 1 and
+                         strip_casts(f, strip_casts(f, a)['args'][0]).get('id') == key['id']):
+                    cands += [(x, h.params[pi]['name']) for x in prog.funcs.values() if x.d.get('lambda') and x.d.get('parent') == h.key]
         ok = False
         why = 'no copy callback found'
-        for lf in lams:
+        for (lf, keyname) in cands:
             lg = Graph(prog, lf, inline=None, sync_lambdas=False)
             adds = lg.calls(api + '::AddEntry')
             if not adds:
@@ -214,7 +228,7 @@ def rule_r3_copy(ck, prog, cls='trace::TraceState', rule='C14.R3', api='KeyValue
                     if cn['k'] == 'call' and cn.get('op') in ('==', '!='):
                         ops = ([cn['obj']] if cn.get('obj') is not None else []) + cn.get('args', [])
                         names = {lf.nodes[i_]['name'] for o in ops for i_ in lf.subtree(o) if lf.nodes[i_]['k'] == 'ref'}
-                        if key['name'] in names and lf.params[0]['name'] in names:
+                        if keyname in names and lf.params[0]['name'] in names:
                             pins[cn['i']] = equal if cn['op'] == '==' else (not equal)
                     elif cn['k'] == 'ref' and cn.get('cap') and 'bool' in (cn.get('t') or ''):
                         pins[cn['i']] = True
@@ -230,13 +244,15 @@ def rule_r3_alloc(ck, prog, cls='trace::TraceState', rule='C14.R3', api='KeyValu
     """Delete: the copy is allocated one member smaller only when the key is known to be present (AddEntry silently drops what
     does not fit, so a too small allocation loses the last member)"""
     f = prog.function(cls + '::Delete')
-    g = Graph(prog, f, inline=None, sync_lambdas=False)
+    # (the allocation may sit in a private helper that receives the size: helpers are inlined, the argument is followed back)
+    g = Graph(prog, f, inline=same_class_inline(prog, f.cls), sync_lambdas=False, max_depth=2)
     rd = reaching_defs(g)
-    news = [p for p in g.points if p.n is not None and p.n['k'] == 'construct' and qmatch(p.n.get('c', ''), cls + '::TraceState') and p.n.get('args')]
+    cname = cls.rsplit('::', 1)[-1]
+    news = [p for p in g.points if p.n is not None and p.n['k'] == 'construct' and qmatch(p.n.get('c', ''), cls + '::' + cname) and p.n.get('args')]
     if not news:
-        raise AnalysisBroken('TraceState::Delete: allocation of the copy not found')
+        raise AnalysisBroken('%s::Delete: allocation of the copy not found' % cname)
     np_ = news[0]
-    lookups = [n for n in f.nodes if n['k'] == 'call' and strip_targs(n.get('c', '')).endswith(api + '::GetValue')]
+    lookups = [n for c_ in g.ctxs for n in c_.f.nodes if n['k'] == 'call' and strip_targs(n.get('c', '')).endswith(api + '::GetValue')]
 
     def present_edge(a, b, lab):
         if not lab or not isinstance(lab[0], int):
@@ -249,24 +265,26 @@ def rule_r3_alloc(ck, prog, cls='trace::TraceState', rule='C14.R3', api='KeyValu
 
     def size_sym(lin):
         return [k for k in lin if k.endswith('Size()')] if lin else []
-    arg = strip_casts(f, np_.n['args'][0])
+    af, ai, ac = deparam(np_.f, np_.n['args'][0], np_.ctx)
+    arg = strip_casts(af, ai)
+    apt = g.point_of.get((id(ac), arg['i'])) if 'i' in arg else None
     verdict = None   # (ok, why, node)
     if arg['k'] == 'ref' and arg.get('sk') == 'local':
-        defs = [g.points[d] for (v, d) in rd.get(np_.id, ()) if v == arg['id']]
+        defs = [g.points[d] for (v, d) in rd.get((apt or np_).id, ()) if v == arg['id']]
         for dp in defs:
-            for (v, strong, vx) in defs_in_node(f, dp.n):
+            for (v, strong, vx) in defs_in_node(dp.f, dp.n):
                 if v != arg['id'] or vx is None:
                     continue
-                vn = strip_casts(f, vx)
+                vn = strip_casts(dp.f, vx)
                 if dp.n['k'] == 'binop' and dp.n['op'] in ('-=', '+=') or (dp.n['k'] == 'unop' and dp.n['op'] in ('--', '++')):
-                    amt = 1 if dp.n['k'] == 'unop' else strip_casts(f, dp.n['rhs']).get('v')
+                    amt = 1 if dp.n['k'] == 'unop' else strip_casts(dp.f, dp.n['rhs']).get('v')
                     if dp.n['op'] in ('+=', '++'):
                         continue
                     if amt == 1 and g.must_pass_edge(dp, present_edge):
                         continue
                     verdict = (False, 'the size of the copy is reduced without the key being known to be present', dp.n)
                     continue
-                lin = linear(g, rd, f, vx, dp.ctx)
+                lin = linear(g, rd, dp.f, vx, dp.ctx)
                 ss = size_sym(lin)
                 if lin is not None and len(ss) == 1 and lin.get(ss[0]) == 1 and set(lin) <= {ss[0], '1'}:
                     dec = -lin.get('1', 0)
@@ -276,14 +294,25 @@ def rule_r3_alloc(ck, prog, cls='trace::TraceState', rule='C14.R3', api='KeyValu
                         continue
                     verdict = (False, 'the copy is allocated %d member(s) smaller than the list without the key being known to be present' % dec, dp.n)
                 elif vn['k'] == 'cond':
-                    srcs = origins(g, rd, f, norm_cond(f, vn['cnd'])[0], dp.ctx)
+                    srcs = origins(g, rd, dp.f, norm_cond(dp.f, vn['cnd'])[0], dp.ctx)
                     if any(any(sn is l for l in lookups) for (sf, sn, sc) in srcs):
                         continue
                     verdict = (False, 'the size of the copy is chosen by a condition that does not say whether the key is present', dp.n)
                 else:
                     verdict = verdict or (None, 'size expression of the copy not recognised', dp.n)
     else:
-        verdict = (None, 'allocation argument is not a local', np_.n)
+        lin = linear(g, rd, af, ai, ac)
+        ss = size_sym(lin)
+        if lin is not None and len(ss) == 1 and lin.get(ss[0]) == 1 and set(lin) <= {ss[0], '1'}:
+            dec = -lin.get('1', 0)
+            if dec > 0:
+                verdict = (False, 'the copy is allocated %d member(s) smaller than the list without the key being known to be present' % dec, np_.n)
+        elif arg['k'] == 'cond':
+            srcs = origins(g, rd, af, norm_cond(af, arg['cnd'])[0], ac)
+            if not any(any(sn is l for l in lookups) for (sf, sn, sc) in srcs):
+                verdict = (False, 'the size of the copy is chosen by a condition that does not say whether the key is present', np_.n)
+        else:
+            verdict = (None, 'size expression of the copy not recognised', np_.n)
     if verdict is None:
         ck.holds(rule, f, 'Delete:allocation-fits-the-copy', np_.n, 'allocated Size(), or Size()-1 behind the key-present edge')
     elif verdict[0] is False:
@@ -394,6 +423,44 @@ def rule_r5(ck, prog, rule='C14.R5'):
                 return (lab[2] if pol else not lab[2]) is (cn['op'] == '==')
         return False
     ok = bool(trues) and all(g.must_pass_edge(r, eq_edge) for r in trues)
+    if not ok and trues:
+        # the same search written with a standard algorithm: find_if / any_of over the entries with a predicate that compares the
+        # whole key, and the hit behind "found != last"
+        rd = reaching_defs(g)
+        algos = [n for n in f.nodes if n['k'] == 'call' and strip_targs(n.get('c', '')) in ('std::find_if', 'std::any_of') and len(n.get('args', [])) >= 3]
+        for al in algos:
+            lams = [prog.funcs[f.nodes[k]['fn']] for k in subtree_through_locals(f, al['args'][2]) if f.nodes[k]['k'] == 'lambda' and f.nodes[k].get('fn') in prog.funcs]
+            if not lams:
+                continue
+            lf = lams[0]
+            rets = [n for n in lf.nodes if n['k'] == 'return' and n.get('e') is not None and n['e'] >= 0]
+            def whole_eq(idx):
+                cn = strip_casts(lf, idx)
+                if cn['k'] == 'call' and cn.get('op') == '==' and 'string_view' in strip_targs(cn.get('c', '') + str(cn.get('ck', ''))):
+                    ops = ([cn['obj']] if cn.get('obj') is not None else []) + cn.get('args', [])
+                    names = {lf.nodes[i]['name'] for o in ops for i in lf.subtree(o) if lf.nodes[i]['k'] == 'ref'}
+                    calls = {strip_targs(lf.nodes[i].get('c', '')).rsplit('::', 1)[-1] for o in ops for i in lf.subtree(o) if lf.nodes[i]['k'] == 'call'}
+                    return key['name'] in names and 'GetKey' in calls
+                return False
+            if not (len(rets) == 1 and whole_eq(rets[0]['e'])):
+                continue
+
+            def found_edge(a, b, lab, _al=al):
+                if not lab or not isinstance(lab[0], int):
+                    return False
+                core, pol = norm_cond(lab[1], lab[0])
+                truth = lab[2] if pol else (not lab[2])
+                cn = lab[1].nodes[core]
+                if cn is _al and strip_targs(_al['c']) == 'std::any_of':
+                    return truth is True
+                c = comparison(lab[1], core)
+                if c and c[0] in ('==', '!='):
+                    for side in (c[1], c[2]):
+                        if any(sn is _al for (sf, sn, sc) in origins(g, rd, lab[1], side, a.ctx)):
+                            return truth is (c[0] == '!=')
+                return False
+            if all(g.must_pass_edge(r, found_edge) for r in trues):
+                ok = True
     ck.verdict(ok, rule, f, 'whole-key-match', trues[0].n if trues else None, 'a hit requires string_view equality of the whole key' if ok else
                'GetValue reports a hit without full string_view equality of the keys (prefix or length-limited comparison): "vendor" finds "vendor2"')
 
